@@ -375,6 +375,10 @@ func (w *l1World) opDeposit(rt *rapid.T) *l1Step {
 	}
 	to := w.drawRecipientString(rt)
 	data := rapid.SliceOfN(rapid.Byte(), 0, 24).Draw(rt, "data")
+	if rapid.IntRange(0, 9).Draw(rt, "jsonData") == 0 {
+		// a payload that happens to be JSON with insignificant white space (L1 relays the bytes as they are)
+		data = []byte(rapid.SampledFrom([]string{`{ "a" : 1 }`, "[1, 2,\n 3]", ` {"memo": "x y"} `, "{\t}"}).Draw(rt, "json"))
+	}
 	coin := sdk.Coin{Denom: denom, Amount: amt}
 	senderStr := sender.Str
 	if rapid.IntRange(0, 11).Draw(rt, "upperSender") == 0 {
